@@ -46,6 +46,11 @@ def check_typing(ctx, case):
     ctx.case(case, nontrivial=base[0] == "valid", key=[case["cls"], wd])
     for r in rots[:6] + rots[-3:]:
         ctx.op(("EVAL", cls, gen.rot(wd, r), []), dict(case, rots=[r]))
+    # the hypothesis of the rotation theorems, measured: does the structure fit in exactly one way?
+    if n <= 64 and ctx.evaluations % 4 == 0:
+        c = impl.count_fits(cls.structure(), wd)
+        ctx.note("fits:" + ("1" if c == 1 else ">1"))
+        ctx.op(("FITS", cls.structure(), wd), case, reply=str(c))
 
 
 def check_assembly(ctx, case):
